@@ -285,7 +285,7 @@ def nodes(e) -> int:
 def lrec_grammar(rng: random.Random):
     """Layered expression grammars with direct, aliased, mutual, optional-prefixed and named left recursion,
     mixed with right recursion and unary prefixes. Returns (grammar, kind)."""
-    kind = rng.choice(['selector', 'direct', 'direct2', 'aliased', 'aliased2', 'mutual', 'optprefix', 'optlead', 'named', 'rightmix', 'unary', 'layered', 'prefix2', 'prefix2', 'postfix', 'optcall'])
+    kind = rng.choice(['tagged', 'selector', 'direct', 'direct2', 'aliased', 'aliased2', 'mutual', 'optprefix', 'optlead', 'named', 'rightmix', 'unary', 'layered', 'prefix2', 'prefix2', 'postfix', 'optcall'])
     num = ('pat', r'\d+')
     ident = ('pat', r'[a-z]+')
     paren = [('tok', '('), 'cut', ('call', 'expr'), ('tok', ')')] if rng.random() < 0.4 else [('tok', '('), ('call', 'expr'), ('tok', ')')]
@@ -321,6 +321,10 @@ def lrec_grammar(rng: random.Random):
     elif kind == 'aliased':
         rules = [('expr', [], ('call', 'e')),
                  ('e', [], ('choice', [('seq', [('call', 'expr'), ('tok', op1), ('call', 'term')]), ('call', 'term')])),
+                 ('term', [], atom)]
+    elif kind == 'tagged':
+        # the recursive alternative starts with a constant (a tag for the node): constants match nothing, the rule is still left recursive
+        rules = [('expr', [], ('choice', [('seq', [('const', rng.choice(['add', 'k', '42'])), ('call', 'expr'), ('tok', op1), ('call', 'term')]), ('call', 'term')])),
                  ('term', [], atom)]
     elif kind == 'selector':
         # two left-recursive alternatives share a long prefix (an index holding a whole nested expression); the first fails late
